@@ -341,3 +341,30 @@ func H_CommitClaimedRewards_TotalTracksLedger() {
 	tot := env.Comm.GetParams(ctx).TotalCommitted.AmountOf(denom)
 	vrf.Assert(tot.Equal(c2.GetCommittedAmountForDenom(denom).Add(rest)), "C12 commit claimed: TotalCommitted == sum of accounts' committed amounts (it goes up by exactly what was committed)")
 }
+
+// Governance's commitment messages (vesting info, vest-now switch) rewrite the module's Params record, which also
+// carries the chain-wide committed totals: those stay what the ledger made them.
+//
+//vrf:cover done
+//vrf:bound 1 account + symbolic remainder with committed LP shares; MsgUpdateVestingInfo (existing or new denom, symbolic values) or MsgUpdateEnableVestNow from the governance authority
+func H_Gov_Messages_KeepTotalCommitted() {
+	s := setup(1)
+	env, ctx := s.env, s.env.Ctx
+	srv := ckeeper.NewMsgServerImpl(*env.Comm)
+	tot0 := env.Comm.GetParams(ctx).TotalCommitted.AmountOf(share)
+	switch vrf.I64("message", 0, 2) {
+	case 0:
+		srv.UpdateEnableVestNow(ctx, &ctypes.MsgUpdateEnableVestNow{Authority: wire.Gov, EnableVestNow: vrf.Bool("enable")})
+	case 1:
+		info := ctypes.DefaultParams().VestingInfos[0]
+		srv.UpdateVestingInfo(ctx, &ctypes.MsgUpdateVestingInfo{Authority: wire.Gov, BaseDenom: info.BaseDenom, VestingDenom: info.VestingDenom,
+			NumBlocks: vrf.I64("numBlocks", 1, maxT), VestNowFactor: vrf.I64("factor", 1, maxT), NumMaxVestings: vrf.I64("maxVestings", 1, 1000)})
+	case 2:
+		srv.UpdateVestingInfo(ctx, &ctypes.MsgUpdateVestingInfo{Authority: wire.Gov, BaseDenom: "unew", VestingDenom: "uelys",
+			NumBlocks: vrf.I64("numBlocks", 1, maxT), VestNowFactor: vrf.I64("factor", 1, maxT), NumMaxVestings: vrf.I64("maxVestings", 1, 1000)})
+	}
+	vrf.Cover("done")
+	vrf.Assert(env.Comm.GetParams(ctx).TotalCommitted.AmountOf(share).Equal(tot0), "C12: a governance message of the commitment module leaves the chain-wide committed total as the ledger made it")
+	vrf.Assert(s.committed().Equal(s.a), "C12: a governance message of the commitment module leaves accounts' committed amounts alone")
+	s.checkCustody("governance message")
+}
